@@ -1040,6 +1040,50 @@ class Interner:
 
 
 EXPECTED = os.path.join(os.path.dirname(os.path.abspath(__file__)), 'xml_constructs_expected.json')
+PINS = os.path.join(os.path.dirname(os.path.abspath(__file__)), 'xml_base_pins.json')
+
+# the functions of sarpy/io/xml that Spec.XmlFmt transcribes by hand (no per-class data: they are the generic machinery).
+# Their normalised AST (docstrings, comments, annotations dropped) is pinned; a change is a broken obligation: the transcription
+# has to be looked at again, and the harness searches for a failing input meanwhile.
+BASE_FUNCTIONS = [
+    ('sarpy.io.xml.base', 'get_node_value'), ('sarpy.io.xml.base', 'create_new_node'), ('sarpy.io.xml.base', 'create_text_node'),
+    ('sarpy.io.xml.base', 'find_first_child'), ('sarpy.io.xml.base', 'find_children'),
+    ('sarpy.io.xml.base', 'parse_serializable'), ('sarpy.io.xml.base', 'parse_serializable_array'),
+    ('sarpy.io.xml.base', 'parse_serializable_list'), ('sarpy.io.xml.base', 'parse_parameters_collection'),
+    ('sarpy.io.xml.base', 'parse_complex'),
+    ('sarpy.io.xml.base', 'Serializable.__init__'), ('sarpy.io.xml.base', 'Serializable.from_node'),
+    ('sarpy.io.xml.base', 'Serializable.to_node'), ('sarpy.io.xml.base', 'Serializable.from_dict'),
+    ('sarpy.io.xml.base', 'Serializable.to_dict'), ('sarpy.io.xml.base', 'Serializable.copy'),
+    ('sarpy.io.xml.base', 'SerializableArray.__init__'), ('sarpy.io.xml.base', 'SerializableArray.set_array'),
+    ('sarpy.io.xml.base', 'SerializableArray._check_indices'), ('sarpy.io.xml.base', 'SerializableArray.to_node'),
+    ('sarpy.io.xml.base', 'SerializableArray.to_json_list'),
+    ('sarpy.io.xml.base', 'ParametersCollection.set_collection'), ('sarpy.io.xml.base', 'ParametersCollection.to_node'),
+    ('sarpy.io.xml.base', 'ParametersCollection.to_dict'),
+    ('sarpy.io.xml.descriptors', 'FloatArrayDescriptor.__set__'), ('sarpy.io.xml.descriptors', 'SerializableArrayDescriptor.__set__'),
+    ('sarpy.io.xml.descriptors', 'SerializableListDescriptor.__set__'), ('sarpy.io.xml.descriptors', 'ParametersDescriptor.__set__'),
+    ('sarpy.io.xml.descriptors', 'SerializableDescriptor.__set__'),
+    ('sarpy.io.complex.sicd_elements.base', 'SerializableCPArrayDescriptor.__set__'),
+    ('sarpy.io.complex.sicd_elements.base', 'SerializableCPArray.__init__'),
+    ('sarpy.io.complex.sicd_elements.base', 'SerializableCPArray._check_indices'),
+    ('sarpy.io.complex.sicd_elements.base', 'SerializableCPArray.to_node'),
+]
+
+
+def base_pins():
+    """{module:qualname -> sha256 of the normalised AST} of the transcribed functions"""
+    import hashlib
+    out = {}
+    for mod, qn_ in BASE_FUNCTIONS:
+        try:
+            obj = importlib.import_module(mod)
+            for part in qn_.split('.'):
+                obj = inspect.getattr_static(obj, part)
+            a = fn_ast(obj)
+            out[f'{mod}:{qn_}'] = 'unavailable' if a is None else hashlib.sha256(ast.dump(a).encode()).hexdigest()[:20]
+        except Exception as e:
+            out[f'{mod}:{qn_}'] = f'missing ({type(e).__name__})'
+    return out
+
 
 
 def build():
@@ -1160,9 +1204,16 @@ def build():
             now = labels.get(q)
             if now != lab:
                 regress.append(dict(cls=q, expected=lab, now=now or 'class no longer exists', why=outside.get(q, '')))
+    pins = base_pins()
+    pin_changes = []
+    if os.path.exists(PINS):
+        import json
+        for k, v in sorted(json.load(open(PINS)).items()):
+            if pins.get(k) != v:
+                pin_changes.append(k)
     return dict(classes=classes, roots=[qual(r) for r in roots], outside=outside, order=order, ids=ids, tables=tables,
                 reachable=reach_py, import_failures=failed, init_extras=extras, construct=construct, labels=labels,
-                regressions=regress, expected=expected)
+                regressions=regress, expected=expected, pins=pins, pin_changes=pin_changes)
 
 
 def row_mismatch(r):
@@ -1296,12 +1347,16 @@ if __name__ == '__main__':
         with open(EXPECTED, 'w') as f:
             json.dump({q: l for q, l in sorted(r['labels'].items()) if l != 'opaque'}, f, indent=0, sort_keys=True)
         print('wrote', EXPECTED)
+        with open(PINS, 'w') as f:
+            json.dump(r['pins'], f, indent=0, sort_keys=True)
+        print('wrote', PINS)
     py = sorted(r['classes'])
     print('python classes', len(py), 'outside', len(r['outside']), 'model classes', len(r['order']),
           'opaque', sum(1 for k in r['order'] if r['tables'][k] is None), 'reachable', len(r['reachable']), 'changed', r['changed'])
     print('import failures', r['import_failures'])
     print('mismatch rows', r['mismatch_rows'])
     print('regressions', r['regressions'])
+    print('pin changes', r['pin_changes'])
     for q, w in sorted(r['outside'].items()):
         print('  outside', q, '--', w)
     import collections
